@@ -253,6 +253,24 @@ fn hostile_commit_hook(w: &mut scenario::World) {
     }
 }
 
+/// an admin's commit whose group-data extension cannot be decoded (image key of 5 bytes), built directly with OpenMLS by an
+/// admin that has no event of its own at the root; published with a later timestamp than every scripted commit
+fn undecodable_group_data_hook(w: &mut scenario::World) {
+    let Some(admin) = w.sc.admins.iter().find(|a| !w.pool.iter().any(|p| p.node.is_empty() && &p.author == *a)).cloned() else { return };
+    let Some(c) = w.nodes.get(&vec![]).and_then(|n| n.clients.get(&admin)).map(|c| c.fork()) else { return };
+    let gid = w.gid.clone();
+    let Some(base_ext) = with_mdk!(c, m => m.load_mls_group(&gid)).ok().flatten().and_then(|g| mdk_core::extension::NostrGroupDataExtension::from_group(&g).ok()) else { return };
+    let mut raw = shapes::RawExt::of(&base_ext);
+    raw.image_key = vec![1u8; 5];
+    let pks = w.pks_by_name.clone();
+    let pk_of = move |n: &str| pks.get(n).and_then(|h| nostr::PublicKey::from_hex(h).ok());
+    if let Ok(ev) = adversary::raw_commit(&c, &gid, &adversary::CommitContent::RawGroupData(raw.encode()), &pk_of, None, w.base_ts + 900) {
+        w.pool.push(scenario::PoolEvent { label: format!("n.{admin}.commit-with-undecodable-group-data"), event: ev, kind: scenario::EvKind::Commit, act: scenario::ActKind::Rename("undecodable".into()), author: admin, node: vec![], child: None, ts: 900, rumor: None });
+        let idx = w.pool.len() - 1;
+        w.settle_order.push(idx);
+    }
+}
+
 fn c07(tier: &str) -> i32 {
     let mut rep = Report::new("C07", tier, "model_checking");
     rep.rule = "every edge deliver(e) of every explored graph where e has already taken effect in the source state (stored message, applied/superseded commit, queued proposal, invalidated message, own echo already confirmed); distinct = distinct (handled-kind, event class, result)".into();
@@ -376,21 +394,6 @@ fn c08(tier: &str) -> i32 {
     // an admin's commit whose group-data extension cannot be decoded (built directly with OpenMLS) is in the pool next to the
     // scripted history: in every state it is offered in, record and MLS state still agree afterwards
     {
-        fn undecodable_group_data_hook(w: &mut scenario::World) {
-            let Some(admin) = w.sc.admins.iter().find(|a| !w.pool.iter().any(|p| p.node.is_empty() && &p.author == *a)).cloned() else { return };
-            let Some(c) = w.nodes.get(&vec![]).and_then(|n| n.clients.get(&admin)).map(|c| c.fork()) else { return };
-            let gid = w.gid.clone();
-            let Some(base_ext) = with_mdk!(c, m => m.load_mls_group(&gid)).ok().flatten().and_then(|g| mdk_core::extension::NostrGroupDataExtension::from_group(&g).ok()) else { return };
-            let mut raw = shapes::RawExt::of(&base_ext);
-            raw.image_key = vec![1u8; 5];
-            let pks = w.pks_by_name.clone();
-            let pk_of = move |n: &str| pks.get(n).and_then(|h| nostr::PublicKey::from_hex(h).ok());
-            if let Ok(ev) = adversary::raw_commit(&c, &gid, &adversary::CommitContent::RawGroupData(raw.encode()), &pk_of, None, w.base_ts + 900) {
-                w.pool.push(scenario::PoolEvent { label: format!("n.{admin}.commit-with-undecodable-group-data"), event: ev, kind: scenario::EvKind::Commit, act: scenario::ActKind::Rename("undecodable".into()), author: admin, node: vec![], child: None, ts: 900, rumor: None });
-                let idx = w.pool.len() - 1;
-                w.settle_order.push(idx);
-            }
-        }
         for (sc, _) in families::c08_quick().into_iter().filter(|(s, _)| s.name == "image-set-clear") {
             for bk in [lab::Bk::Memory, lab::Bk::Sqlite] {
                 let mut j = E1Job::new(sc.clone()).backend(bk);
@@ -531,6 +534,17 @@ fn c02(tier: &str) -> i32 {
     let mut jobs = if tier == "quick" { jobs_from(families::c02_quick()) } else { jobs_from(families::c02_thorough()) };
     if tier != "quick" {
         jobs.extend(jobs_from(families::c02_quick()).into_iter().map(|j| j.backend(lab::Bk::Sqlite)));
+    }
+    // a message of the winning branch reaches a SQLite bystander that sits on the losing branch (refused, recorded), then the
+    // winning commit (rollback): what the rollback names for another try comes out of the SQLite retry query
+    if tier == "quick" {
+        for (sc, _) in families::c02_quick().into_iter().filter(|(s, _)| s.name == "msg-on-winner-branch") {
+            let mut j = E1Job::new(sc).backend(lab::Bk::Sqlite);
+            j.regimes = vec![explore::Regime::Causal];
+            j.members = Some(vec!["Z".into()]);
+            j.with_local_ops = false;
+            jobs.push(j);
+        }
     }
     // a member's own message, still unconfirmed, on a branch that then loses (both backends: invalidation is a statement of its own in SQLite)
     {
@@ -764,6 +778,17 @@ fn c03(tier: &str) -> i32 {
             j.with_restart = true;
             j.with_local_ops = false;
             j.members = Some(if tier == "quick" { vec!["Z".into()] } else { vec!["Z".into(), "B".into()] });
+            jobs2.push(j);
+        }
+        // an admin's commit that is refused (undecodable group data, newest timestamp) is offered before the race: what a
+        // refusal leaves behind must not decide the race between the removal and the losing commit
+        {
+            let sc = families::base("removal-wins-vs-rename+refused-commit", &["A", "B", "C", "X", "Z"], &["A", "B", "C"], &[], vec![act("A", ActKind::Remove("X".into()), 10), act("B", ActKind::Rename("loser".into()), 20)]);
+            let mut j = E1Job::new(sc);
+            j.regimes = vec![explore::Regime::Causal];
+            j.world_hook = Some(undecodable_group_data_hook);
+            j.with_local_ops = false;
+            j.members = Some(vec!["Z".into()]);
             jobs2.push(j);
         }
         run_e1(jobs2, &|cx, rep, _| props_e1::check_c03_roster(cx, rep), &mut rep);
